@@ -106,6 +106,11 @@ func Start(property, level string) *Run {
 		}
 	}
 	r.Deadline = r.start.Add(*budget)
+	if d := os.Getenv("VERIF_DEADLINE_UNIX"); d != "" {
+		if u, err := strconv.ParseInt(d, 10, 64); err == nil {
+			r.Deadline = time.Unix(u, 0)
+		}
+	}
 	r.loadFindings()
 	return r
 }
@@ -233,6 +238,10 @@ func (r *Run) Violations() int {
 func (r *Run) Finish() {
 	r.mu.Lock()
 	defer r.mu.Unlock()
+
+	if out := os.Getenv("VERIF_WORKER_OUT"); out != "" {
+		r.finishWorker(out)
+	}
 
 	wall := time.Since(r.start).Seconds()
 	cov := r.coverage
